@@ -5,7 +5,7 @@ export GOPROXY=off
 git diff --quiet -- . ':!seed' || { echo "WORKTREE NOT CLEAN: $(git status --short | tr '\n' ' ')"; git checkout -- . ; }
 git apply seed/$n/patch.diff || { echo "PATCH DOES NOT APPLY"; exit 2; }
 go build ./... || { echo "BUILD FAILS"; git checkout -- .; exit 1; }
-t=$(go test -vet=off -count=1 ./... 2>&1 | grep -v 'no test files' | grep -v '^ok')
+t=$(go test -vet=off -count=1 $(go list ./... | grep -v '/seed') 2>&1 | grep -v 'no test files' | grep -v '^ok')  # the seed's own demonstration files are not part of the suite
 timeout 900 sh seed/$n/demo.sh >/tmp/w/demo.with 2>&1; a=$?
 git apply -R seed/$n/patch.diff
 timeout 900 sh seed/$n/demo.sh >/tmp/w/demo.without 2>&1; b=$?
